@@ -44,9 +44,9 @@ SYSTEMS = ['agnostic', 'apfl', 'hyp', 'mimelite', 'ignore']
 def plan(tier):
   if tier == 'quick':
     return {'runs': 160, 'budget_s': 540, 'per_run_timeout_s': 500, 'selftest_runs': 8,
-            'selftest_runs_full': 48, 'shrink_budget_s': 120}
+            'selftest_runs_full': 48, 'shrink_budget_s': 120, 'max_runs_per_process': 400}
   return {'runs': 10000, 'budget_s': 1800, 'per_run_timeout_s': 900, 'selftest_runs': 16,
-          'selftest_runs_full': 96, 'shrink_budget_s': 240}
+          'selftest_runs_full': 96, 'shrink_budget_s': 240, 'max_runs_per_process': 400}
 
 
 def generate(seed, tier):
